@@ -563,7 +563,7 @@ class LTr(BTr):
             if tl:
                 return self.wrap(pre, f'if {c} then\n{body}\nelse {other}')
             return self.wrap(pre, f'if {c} then {other} else\n{body}')
-        if not rest:
+        if not rest and not getattr(kont, 'join', False):
             a = branch(s.body, kont)
             b = branch(s.orelse, kont)
             return self.wrap(pre, f'if {c} then\n{a}\nelse\n{b}')
@@ -790,32 +790,49 @@ def translate_function(fn, lean_name, params, ret_type, record=None, fields=None
     if split is None:
         body = tr.block(stmts, end)
         return dict(lean=f'def {lean_name} {head} : Option ({ret_type}) :=\n{indent(body)}\n', consts=tr.used_consts)
-    cut = [k for k, st in enumerate(stmts) if split(st)]
-    if len(cut) != 1:
-        raise Untranslatable(f'{fn.name}: expected exactly one statement starting the second part, found {len(cut)}')
-    first, second = stmts[:cut[0]], stmts[cut[0]:]
-    used = {n.id for st in second for n in ast.walk(st) if isinstance(n, ast.Name)}
+    splits = list(split) if isinstance(split, (list, tuple)) else [split]
+    cuts = []
+    for sp in splits:
+        cut = [k for k, st in enumerate(stmts) if sp(st)]
+        if len(cut) != 1:
+            raise Untranslatable(f'{fn.name}: expected exactly one statement starting a named part, found {len(cut)}')
+        cuts.append(cut[0])
+    if cuts != sorted(set(cuts)) or cuts[0] == 0:
+        raise Untranslatable(f'{fn.name}: the named parts are not in order')
+    bounds = [0] + cuts + [len(stmts)]
+    parts = [stmts[a:b] for a, b in zip(bounds, bounds[1:])]
+    names = [lean_name] + [f'{lean_name}_rest{"" if k == 0 else k + 1}' for k in range(len(cuts))]
     pnames = [n for n, _ in params]
-    state = {}
+    defs = {}
 
-    def call_rest():
-        live = [(n, t) for n, t in tr.env.items() if n not in pnames and t != POISON and t != 'List ?'
-                and (n in used or (record and n.startswith(record + LTr.SEP) and record in used))]
-        if tr.pre:
-            raise Untranslatable('pending partial expression at the split point')
-        if 'live' not in state:
-            state['live'] = live
-            saved = (dict(tr.env), set(tr.frozen), dict(tr.elem_alias))
-            state['body'] = tr.block(second, end)
-            tr.env, tr.frozen, tr.elem_alias = saved
-        elif live != state['live']:
-            raise Untranslatable('the locals reaching the second part differ between paths')
-        args = ' '.join([lname(n) for n in pnames] + ([cb_names] if cb_names else []) + [lname(n) for n, _ in live])
-        return f'{lean_name}_rest {targs + " " if targs else ""}{args}'
-    body = tr.block(first, call_rest)
-    if 'live' not in state:
-        raise Untranslatable('the second part is unreachable')
-    lsig = ' '.join(f'({lname(n)} : {lean_type(t)})' for n, t in state['live'])
-    text = (f'def {lean_name}_rest {head} {lsig} : Option ({ret_type}) :=\n{indent(state["body"])}\n\n'
-            f'def {lean_name} {head} : Option ({ret_type}) :=\n{indent(body)}\n')
-    return dict(lean=text, consts=tr.used_consts, live=state['live'])
+    def caller(k):
+        """continuation that calls part k (translating it on first use)"""
+        used = {n.id for st in stmts[bounds[k]:] for n in ast.walk(st) if isinstance(n, ast.Name)}
+        state = {}
+
+        def call():
+            live = [(n, t) for n, t in tr.env.items() if n not in pnames and t != POISON and t != 'List ?'
+                    and (n in used or (record and n.startswith(record + LTr.SEP) and record in used))]
+            if tr.pre:
+                raise Untranslatable('pending partial expression at the start of a named part')
+            if 'live' not in state:
+                state['live'] = live
+                saved = (dict(tr.env), set(tr.frozen), dict(tr.elem_alias))
+                defs[k] = (live, tr.block(parts[k], caller(k + 1) if k + 1 < len(parts) else end))
+                tr.env, tr.frozen, tr.elem_alias = saved
+            elif live != state['live']:
+                raise Untranslatable(f'the locals reaching a named part differ between paths: {live} / {state["live"]}')
+            args = ' '.join([lname(n) for n in pnames] + ([cb_names] if cb_names else []) + [lname(n) for n, _ in live])
+            return f'{names[k]} {targs + " " if targs else ""}{args}'
+        call.join = True          # a named part has ONE parameter list: the paths of a final `if` are joined in front of it
+        return call
+    body = tr.block(parts[0], caller(1))
+    text = ''
+    for k in range(len(parts) - 1, 0, -1):
+        if k not in defs:
+            raise Untranslatable('a named part is unreachable')
+        live, b = defs[k]
+        lsig = ' '.join(f'({lname(n)} : {lean_type(t)})' for n, t in live)
+        text += f'def {names[k]} {head} {lsig} : Option ({ret_type}) :=\n{indent(b)}\n\n'
+    text += f'def {lean_name} {head} : Option ({ret_type}) :=\n{indent(body)}\n'
+    return dict(lean=text, consts=tr.used_consts, live={names[k]: defs[k][0] for k in defs})
